@@ -19,7 +19,7 @@ import json
 import os
 import subprocess
 
-from . import core, flow, names, summary, serde_model
+from . import core, flow, names, normal, summary, serde_model
 from .framework import where, short, api_name, VERIF
 from .c02 import has, is_call, find, sub, closure_ret
 
@@ -117,6 +117,7 @@ def run(chk):
     chk.configs = ["all-features"]
     chk.explanation = __doc__
     S = summary.Summaries(p)
+    N = normal.Normalizer(p, S)
     with open(os.path.join(VERIF, "tables", "lenient_fields.json")) as fh:
         tab = json.load(fh)
     models = {}
@@ -157,14 +158,17 @@ def run(chk):
     iu = fn("ignore_unknown")
     if chk.require("R1 lenient members", "R1|helper|ignore_unknown", iu, SER, "ignore_unknown not found"):
         chk.touched(iu)
-        outs = S.local_outcomes(iu)
+        outs = normal.rows(S, iu, N, expand=False)
         inner = [t for bb, t in iu.calls() if names.call_is(t, "Deserialize::deserialize")]
-        ok = bool(inner) and outs and all(o.variant[:1] == ("Ok",) for o in outs) and any(has(o.value, lambda x: is_call(x, "Result::unwrap_or_default") or is_call(x, "Result::unwrap_or")) for o in outs)
+        # absorbing: every row is Ok although the inner deserializer is fallible, and its failure is tested (some row sits on
+        # the failure side of the inner result)
+        is_inner = lambda x: is_call(x, "Deserialize::deserialize")
+        ok = bool(inner) and outs and all(o.variant[:1] == ("Ok",) for o in outs) and any(flow.asserts_fail(t, l, is_inner) for o in outs for t, l, f, w in o.conds)
         chk.ob("R1 lenient members", "R1|helper|ignore_unknown|absorbing", ok, where(iu), "outcomes: %s" % [(o.vstr(), flow.term_str(o.value)[:80]) for o in outs])
     pu = [b for b in p.all_bodies if b.path.endswith("::deserialize") and "PossiblyUnknown" in b.path and b.path == b.root]
     if chk.require("R1 lenient members", "R1|helper|PossiblyUnknown", len(pu) == 1, SER, "PossiblyUnknown::deserialize not found"):
         chk.touched(pu[0])
-        outs = S.local_outcomes(pu[0])
+        outs = normal.rows(S, pu[0], N, expand=False)
         inner = set()
         for o in outs:
             v = dict(o.value[3]).get("0") if o.value[0] == "agg" else None
